@@ -32,7 +32,8 @@ def scenarios(tier, seed):
                 k += 1
                 out.append(dict(family=f"roundtrip/{fmt}", mode="bn", fmt=fmt, shape=sname, nodes=nodes, parents=parents, card=card, names=["plain", "keyword"][k % 2],
                                 hashseed=k % 2))
-    for mname, (nodes, scopes) in {"mchain3": (["A", "B", "C"], [["A", "B"], ["C", "B"]]), "mtri": (["A", "B", "C"], [["A", "B"], ["B", "C"], ["C", "A"], ["B"]])}.items():
+    for mname, (nodes, scopes) in {"mchain3": (["A", "B", "C"], [["A", "B"], ["C", "B"]]), "mtri": (["A", "B", "C"], [["A", "B"], ["B", "C"], ["C", "A"], ["B"]]),
+                                    "munary": (["A", "B", "C"], [["A", "B"], ["C"]])}.items():   # munary: a variable that occurs in a unary factor only
         for card in C.card_options(nodes, tier)[:2]:
             card = {v: max(1, c) for v, c in card.items()}
             out.append(dict(family="roundtrip/uai-mn", mode="mn", fmt="uai", model=mname, nodes=nodes, scopes=scopes, card=card, hashseed=0))
